@@ -89,3 +89,5 @@ PROP = {'title': 'Textual and binary encodings round-trip losslessly',
                  'the byte layout of long double (padding bytes) is not asserted, only the value round trip; long double values are restricted to '
                  'those whose six low-order mantissa bytes are non-zero, for which the outcome does not depend on indeterminate padding bytes',
                  'wide-stream extraction of signed/unsigned char does not exist in iostreams; 8-bit types use narrow strings only']}
+
+PROP['rule'] += " fcppt::log::level (the library's own enum with a to_string customisation): level_to_string / level_from_string / operator<< / operator>> for every enumerator and ordered pair, and a candidate set of non-names (all strings over {e,r,o} up to length 5, prefixes, suffixes, case changes, single-character edits, embedded NUL) on exact-size buffers."
